@@ -246,6 +246,30 @@ pub fn count_set_cases() -> Vec<Vec<String>> {
     v
 }
 
+/// Test cases x^i y^j + suffix: with repetition conversion the prefixes x{i}y{j} of different test cases fold
+/// into shared trie states, so the suffix edges of one state are inserted in the order of the *whole* strings;
+/// a second, plain prefix reaches the same suffixes in another order.
+pub fn merged_prefix_family(rng: &mut Rng, sigma: &[&str]) -> Vec<String> {
+    let x = *rng.pick(sigma);
+    let y = *rng.pick(sigma);
+    let z = *rng.pick(sigma);
+    let sufs = [z.to_string(), z.repeat(3), z.repeat(2), format!("{z}{x}"), String::new(), z.repeat(4)];
+    let mut tcs = vec![];
+    for _ in 0..3 + rng.below(5) {
+        let i = 1 + rng.below(3);
+        let j = rng.below(3);
+        tcs.push(format!("{}{}{}", x.repeat(i), y.repeat(j), rng.pick(&sufs)));
+    }
+    for _ in 0..rng.below(3) {
+        tcs.push(format!("{}{}", y, rng.pick(&sufs)));
+    }
+    tcs.retain(|t| !t.is_empty());
+    if tcs.is_empty() {
+        tcs.push(x.to_string());
+    }
+    tcs
+}
+
 /// Every blank / ignorable character repeated where no atom precedes it (start of the pattern, start
 /// of a group, after `|`), for verbose mode.
 pub fn blank_repeat_cases() -> Vec<Vec<String>> {
